@@ -125,6 +125,10 @@ func (mp *MotionProcessor) Process(rawFrame []byte) error {
 }
 
 func (mp *MotionProcessor) processSnapshot(frame *cptvframe.Frame) {
+	if mp.StartSnapshot && mp.SnapshotRecording {
+		// A test recording is already in progress; it serves this request too.
+		mp.StartSnapshot = false
+	}
 	if mp.StartSnapshot {
 		mp.log.Printf("making a snapshot")
 		mp.StartSnapshot = false
